@@ -195,6 +195,19 @@ pub struct World {
     pub want_owner: bool,
 }
 
+/// names of the crash points of hook H3, numbered as in `AggProto.crashPointOfNat`
+pub const CRASH_POINTS: [&str; 9] = [
+    "create_certificate:before_certificate_insert",
+    "create_certificate:after_certificate_insert",
+    "create_certificate:after_open_message_update",
+    "create_artifact:before_artifact_computation",
+    "create_artifact:after_artifact_computation",
+    "create_artifact:after_signed_entity_insert",
+    "buffered_hand_over:before_hand_over",
+    "buffered_hand_over:before_buffer_removal",
+    "buffered_hand_over:after_buffer_removal",
+];
+
 pub fn ent_key(set: &SignedEntityType) -> String {
     format!("{}:{}", set.index(), set.get_json_beacon().unwrap())
 }
@@ -558,6 +571,34 @@ impl World {
         let ev = format!("(tick,{},{},{})", tp.epoch.0, hutil::list(&avail), newmsg);
         self.record(ev, outcome);
         (ok, after)
+    }
+
+    /// one tick with the crash point `CRASH_POINTS[p]` armed (hook H3); returns whether the point fired
+    pub async fn crash_tick(&mut self, p: usize) -> bool {
+        use mithril_aggregator::verif_hooks as vh;
+        let tp = self.time_point().await;
+        let avail = self.avail(&tp);
+        let before = self.dump();
+        vh::arm_crash_point(CRASH_POINTS[p]);
+        let r = catch_async(self.tester.cycle()).await;
+        self.settle().await;
+        let fired = vh::armed_crash_point().is_none();
+        vh::disarm_crash_point();
+        let outcome = match &r {
+            Ok(Ok(_)) => "ok",
+            Ok(Err(_)) => "err",
+            Err(_) => "panic",
+        };
+        let after = self.dump();
+        let newmsg = after
+            .oms
+            .iter()
+            .find(|o| !before.oms.iter().any(|b| b.id == o.id))
+            .map(|o| o.msg.to_string())
+            .unwrap_or("n".into());
+        let ev = format!("(ctick,{},{},{},{})", p, tp.epoch.0, hutil::list(&avail), newmsg);
+        self.record(ev, &format!("{}{}", outcome, if fired { "!" } else { "" }));
+        fired
     }
 
     pub async fn epoch_up(&mut self, n: u64) {
